@@ -80,6 +80,11 @@ def run_script(chk, prog, sim, up, get, kind, script, key):
                     continue
                 nxt.append(leaf.state)
                 post = sim.final_value(leaf.state, leaf.state.mem[oid])
+                lossy = N.lossy_ops(post)
+                if lossy:
+                    chk.violation("C11.value", "lossy-op", "update stores a value computed with a truncating integer operation %r (integer division/truncation of nanoseconds before the conversion to seconds)" % (lossy[0],),
+                                  fn=up["pretty"], file=loc(up["span"]))
+                    ok = False
                 bad = N.absolute_time_casts(post, is_time)
                 if bad:
                     chk.violation("C11.shift", "absolute-time", "CommandPID::update converts an absolute timestamp to float (%r)" % (bad[0],), fn=up["pretty"], file=loc(up["span"]))
